@@ -426,6 +426,23 @@ R_INV = {
     "distinct": "all(pos[result[k]] == k for k in range(len(result)))",
 }
 
+def every_directory_walked(ex):
+    """C17 (nothing is missed): a directory argument is traversed -- exactly one walk, rooted at that argument -- whatever was
+    resolved before it; file and glob arguments trigger none"""
+    walks = [e for e in ex.log[ex.iter_log_start:] if e[0] == "WALK"]
+    env = ex.envs[0]
+    raw = ex.list_get(env["_it0"], ex.z(env["_i"]) - 1)
+    p = ex.th.uf("call_Path", ex.th.Str, Ref)(ex.z(raw))
+    is_file = ex.th.uf("call_Path_is_file", Ref, Bool)(p)
+    is_dir = ex.th.uf("call_Path_is_dir", Ref, Bool)(p)
+    want = z3.And(z3.Not(is_file), is_dir)
+    if len(walks) > 1:
+        return False
+    if walks:
+        return z3.And(want, ex.z(walks[0][1]["root"]) == p)
+    return z3.Not(want)
+
+
 contract(Contract(
     target=M + ":FileResolver.resolve",
     props=["C17"],
@@ -442,11 +459,13 @@ contract(Contract(
         "Path.is_dir": Callee("uf", ret="bool", sig=["self"]),
         "Path.resolve": Callee("uf", ret="ref:Path", sig=["self"], post=_resolved_post),
         "Path.absolute": Callee("uf", ret="ref:Path", sig=["self"]),
+        "Path.is_relative_to": Callee("uf", ret="bool", sig=["self", "other"]),
         "self._should_include_explicit": Callee("uf", ret="bool", sig=["self_", "path"]),
         "self._walk_directory": Callee("effect", ret="list[ref:Path]", effect="WALK", sig=["self_", "root"]),
         "self._expand_glob": Callee("effect", ret="list[ref:Path]", effect="GLOB", sig=["self_", "pattern"]),
     },
-    loops={0: Loop(inv=R_INV, modifies=["pos"], decreases="len(paths) - _i"),
+    loops={0: Loop(inv=R_INV, modifies=["pos"], decreases="len(paths) - _i",
+                   body_ensures={"every_directory_walked": Clause(every_directory_walked)}),
            1: Loop(inv=R_INV, modifies=["pos"]), 2: Loop(inv=R_INV, modifies=["pos"])},
     raises=("FileNotFoundError",),
     ensures={"sorted_distinct": Clause(strictly_sorted),
